@@ -39,7 +39,7 @@ func init() {
 func c16Run(ctx *core.Ctx) {
 	maxTok, nRand := 6, 6000
 	if ctx.Thorough() {
-		maxTok, nRand = 8, 60000
+		maxTok, nRand = 9, 400000
 	}
 	ctx.Rule = fmt.Sprintf("bodies exhaustive over the tokens {'.', LF, CRLF, 'x'} up to %d tokens plus %d seeded 8-bit bodies (CR only inside CRLF) x partitions into Write calls {whole, octet-by-octet, every 2-split (rotating), seeded} x server verdict {accept, reject with token} x {SMTP, LMTP} x 1..3 recipients; real smtp.Client against the real server; Close is called twice. Non-trivial: the body contains a '.' at a line start or a bare LF; distinct by case.", maxTok, nRand)
 	ctx.Assumptions = []string{"the empty body is not judged", "reference = ref.DotWriterNormalise (bare LF -> CRLF, final CRLF ensured)"}
